@@ -291,12 +291,24 @@ theorem printCell_isTok (c : DCell) (k : Nat) (hc : wfCell c = true) : isTok (pr
     simp only [wfCell, noSpace, Bool.and_eq_true, List.all_eq_true, Bool.not_eq_true', bne_iff_ne, ne_eq] at hc
     refine ⟨?_, fun x hx => hc.1.1.1.2 x hx⟩
     intro h; simp only [printCell] at h; rw [h] at hc; simp at hc
+  | lit s m e =>
+    simp only [wfCell, noSpace, Bool.and_eq_true, List.all_eq_true, Bool.not_eq_true', bne_iff_ne, ne_eq] at hc
+    refine ⟨?_, fun x hx => hc.1.1.1.2 x hx⟩
+    intro h; simp only [printCell] at h; rw [h] at hc; simp at hc
 
 theorem printCell_head (c : DCell) (k : Nat) (hc : wfCell c = true) :
     ∃ x r, printCell c k = x :: r ∧ x ≠ '~' ∧ x ≠ '#' ∧ isSpace x = false := by
   cases c with
   | num m e => exact printNum_head m e k
   | bad s =>
+    simp only [wfCell, noSpace, Bool.and_eq_true, List.all_eq_true, Bool.not_eq_true', bne_iff_ne, ne_eq] at hc
+    cases s with
+    | nil => simp at hc
+    | cons x r =>
+      refine ⟨x, r, rfl, ?_, ?_, hc.1.1.1.2 x List.mem_cons_self⟩
+      · intro h; subst h; simp at hc
+      · intro h; subst h; simp at hc
+  | lit s m e =>
     simp only [wfCell, noSpace, Bool.and_eq_true, List.all_eq_true, Bool.not_eq_true', bne_iff_ne, ne_eq] at hc
     cases s with
     | nil => simp at hc
@@ -312,6 +324,9 @@ theorem convertValue_printCell (c : DCell) (k : Nat) (hc : wfCell c = true) :
   | num m e => simp only [printCell, convertValue, parseFloat_printNum, expectCell]
   | bad s =>
     simp only [wfCell, Bool.and_eq_true, Option.isNone_iff_eq_none] at hc
+    simp only [printCell, convertValue, hc.1.1.2, expectCell]
+  | lit s m e =>
+    simp only [wfCell, Bool.and_eq_true, beq_iff_eq] at hc
     simp only [printCell, convertValue, hc.1.1.2, expectCell]
 
 end TD.C09
